@@ -7,20 +7,20 @@ open Zio
 
 let parse_ep (toks : string list) : M.sd_ep =
   match toks with
-  | [st; wsd; wsa; wsc; scp; t2; pend; infl; ack; ret; down] ->
+  | [st; wsd; wsa; wsc; scp; dn; t2; pend; infl; ack; ret; down] ->
     let b s = (s = "1") in
-    { M.sd_state = cz st; M.sd_wsd = b wsd; M.sd_wsa = b wsa; M.sd_wsc = b wsc; M.sd_scp = b scp; M.sd_t2 = b t2;
+    { M.sd_state = cz st; M.sd_wsd = b wsd; M.sd_wsa = b wsa; M.sd_wsc = b wsc; M.sd_scp = b scp; M.sd_done = b dn; M.sd_t2 = b t2;
       M.sd_pend = cz pend; M.sd_infl = cz infl; M.sd_ack = cz ack;
       M.sd_ret = (match ret with "0" -> M.SdNotCalled | "1" -> M.SdWaiting | "2" -> M.SdRetNil | "3" -> M.SdRetErr
-                              | _ -> failwith "bad ret");
+                              | "4" -> M.SdRetIncomplete | _ -> failwith "bad ret");
       M.sd_down = b down }
   | _ -> failwith "bad endpoint line"
 
 let show_ep (e : M.sd_ep) : string =
-  Printf.sprintf "state=%s wsd=%s wsa=%s wsc=%s scp=%s t2=%s pend=%s infl=%s ack=%s ret=%s down=%s"
-    (sz e.M.sd_state) (sbool e.M.sd_wsd) (sbool e.M.sd_wsa) (sbool e.M.sd_wsc) (sbool e.M.sd_scp) (sbool e.M.sd_t2)
+  Printf.sprintf "state=%s wsd=%s wsa=%s wsc=%s scp=%s done=%s t2=%s pend=%s infl=%s ack=%s ret=%s down=%s"
+    (sz e.M.sd_state) (sbool e.M.sd_wsd) (sbool e.M.sd_wsa) (sbool e.M.sd_wsc) (sbool e.M.sd_scp) (sbool e.M.sd_done) (sbool e.M.sd_t2)
     (sz e.M.sd_pend) (sz e.M.sd_infl) (sz e.M.sd_ack)
-    (match e.M.sd_ret with M.SdNotCalled -> "0" | M.SdWaiting -> "1" | M.SdRetNil -> "2" | M.SdRetErr -> "3")
+    (match e.M.sd_ret with M.SdNotCalled -> "0" | M.SdWaiting -> "1" | M.SdRetNil -> "2" | M.SdRetErr -> "3" | M.SdRetIncomplete -> "4")
     (sbool e.M.sd_down)
 
 let kind_name = function
@@ -66,6 +66,8 @@ let run path =
         | ["sdcomp"] -> bump "shutdown-complete" n; `One M.SdEvRecvShutdownComplete
         | ["init"] -> bump "init" n; `One M.SdEvRecvInit
         | ["down"] -> bump "transport-down" n; `One M.SdEvTransportDown
+        | ["abort"] -> bump "abort" n; `One M.SdEvRecvAbort
+        | ["close"] -> bump "close-call" n; `One M.SdEvCloseCall
         | "seq" :: _ :: l -> bump "timers" n; List.iter (fun t -> bump ("timer-" ^ t) n) l; `Seq (List.map timer_ev l)
         | _ -> failwith "bad event" in
       bump ("state-" ^ sz pre.M.sd_state) n;
